@@ -69,12 +69,14 @@ Definition valid_group (p : pkg) (g : option string * list string) : bool :=
    the groups differ from the model's but every observed group is a real collision of the package
    (another, equally correct choice of which collision to report - e.g. a rewrite that reports all
    stages at once), the case is returned as [OAlt]: the driver counts it and does not raise an alarm
-   (on the code the model transcribes there are none). *)
+   (on the code the model transcribes there are none).  A diagnosis that names only SOME of the groups the
+   model names (a strict subset: colliding definitions left unnamed) is a mismatch, not an alternative. *)
 Definition check (c : case) : option obs :=
   let m := model_obs c in
   match m, c_obs c with
   | ORej mg, ORej og =>
       if groups_eqb mg og then None
+      else if groups_sub og mg then Some m            (* fewer groups than the model names: definitions went unnamed *)
       else if negb (Nat.eqb (length og) 0) && forallb (valid_group (c_pkg c)) og then Some OAlt
       else Some m
   | OAcc mr, OAcc orr => if list_eqb run_eqb mr orr then None else Some m
